@@ -637,7 +637,7 @@ func reverseInts(a []int) []int {
 func (c15) Describe(tier string) fw.Description {
 	return fw.Description{
 		Level: "model_checking",
-		Rule: "(WITHIN: every pattern x 2 DEFINE templates x 2 SKIP modes with WITHIN 2s over events one second apart, reference = longest run per start whose span fits; partition isolation: pairwise search over typed two-column partition keys and over key tuples that collide under join-with-a-middle and faulty-escaping encoders) " + fmt.Sprint(len(c15Patterns())) + " patterns over <= 4 variables (sequence, alternation, ?, *, +, {n}, {n,m} also with m >= n+2, groups, PERMUTE of two and of three variables) x " + fmt.Sprint(len(c15Defines())) + " DEFINE templates (constants, PREV, overlapping conditions, FIRST()/COUNT() aggregates, FIRST(A.v)/LAST(A.v) qualified by a variable, one function called twice with different arguments - also in MEASURES; undefined variable always true) x every AFTER MATCH SKIP mode (PAST LAST ROW, TO NEXT ROW, TO FIRST B, TO LAST B, TO B) x all event streams of length 1..L over v in {1,2,3}; executed on the real engine (Emit, flush at Stop) and compared with a brute-force reference (all valid (start,end,labeling) by backtracking; leftmost start, longest end, SKIP rule, MATCH_NUMBER 1,2,..; FIRST(id)/LAST(id)); every 4th stream also with ALL ROWS PER MATCH (CLASSIFIER() must be one of the valid labelings), every 6th also with a second interleaved partition (each partition must report what it reports alone); non-trivial = at least one expected match",
+		Rule: "(WITHIN: every pattern x 2 DEFINE templates x 2 SKIP modes with WITHIN 2s over events one second apart, reference = longest run per start whose span fits; partition isolation: pairwise search over typed two-column partition keys and over key tuples that collide under join-with-a-middle and faulty-escaping encoders) " + fmt.Sprint(len(c15Patterns())) + " patterns over <= 4 variables (sequence, alternation, ?, *, +, {n}, {n,m} also with m >= n+2, {n} next to a variable-length part, groups, PERMUTE of two and of three variables) x " + fmt.Sprint(len(c15Defines())) + " DEFINE templates (constants, PREV, overlapping conditions, FIRST()/COUNT() aggregates, MAX/MIN/SUM over an all-negative column, FIRST(A.v)/LAST(A.v) qualified by a variable, one function called twice with different arguments - also in MEASURES; undefined variable always true) x every AFTER MATCH SKIP mode (PAST LAST ROW, TO NEXT ROW, TO FIRST B, TO LAST B, TO B) x all event streams of length 1..L over v in {1,2,3}; executed on the real engine (Emit, flush at Stop) and compared with a brute-force reference (all valid (start,end,labeling) by backtracking; leftmost start, longest end, SKIP rule, MATCH_NUMBER 1,2,..; FIRST(id)/LAST(id)); every 4th stream also with ALL ROWS PER MATCH (CLASSIFIER() must be one of the valid labelings), every 6th also with a second interleaved partition (each partition must report what it reports alone); non-trivial = at least one expected match",
 		Bounds:      map[string]any{"max_len": map[string]int{"quick": 5, "thorough": 7}, "values": []int{1, 2, 3}, "patterns": len(c15Patterns())},
 		Assumptions: []string{"SKIP TO FIRST/LAST X cases where the target is ambiguous among valid labelings or equals the match start are skipped and counted", "WITHIN and the memory guards are not exercised (the property excludes the guarded regime)", "PREV navigates the match so far (property text)"},
 	}
